@@ -79,7 +79,7 @@ var props = map[string]propSpec{
 	}, Assumptions: with("client-side TLS handshake contract model (DESIGN 3.5): with InsecureSkipVerify the only guards are VerifyConnection and the server's proof of possession of its leaf key; native twin: a real crypto/tls server (vf.RogueServerConn)", "net.Dialer, real sockets and the pending-authorization path of protocol.Dial (attemptFetch) are outside this check"),
 		Explanation: "real ClientConfigs (nonce, signing, ALPN assembly, chain filtering) and its VerifyConnection / GetClientCertificate callbacks against rogue servers (stale certificate for another nonce, foreign root, self-signed, another node's certificate; with or without the leaf key) for each configuration and dial option set; and against the node's own server when only one of its two roots survives"},
 	"C08": {Harnesses: []harnessSpec{
-		{Pkg: "rotation", Fn: "VerifC08Rotate", Validate: 8, MustReach: []string{"nothing", "promote", "remint", "startover"}},
+		{Pkg: "rotation", Fn: "VerifC08Rotate", Validate: 16, MustReach: []string{"nothing", "promote", "remint", "startover"}},
 	}, Assumptions: with("clock assumption: one rotation call takes < 100 ms and ends before the promoted root expires"), Explanation: "one RotateRootCertificates call from arbitrary stored windows"},
 	"C09": {Harnesses: []harnessSpec{
 		{Pkg: "rotation", Fn: "VerifC09Base", Validate: 1, MustReach: []string{"end"}},
@@ -106,9 +106,17 @@ var props = map[string]propSpec{
 	}, Assumptions: with("secrecy is a derivability check on provenance terms (a secret may reach storage only below an AEAD seal or a one-way function); natively replayed as bytes.Contains on the marshalled message", "the storage wrapper is a real go-kms-wrapping aead wrapper executed from SSA"),
 		Explanation: "Store/Load of all four record types with a storage wrapper over a recording storage: secrecy of every private key / nonce / creation time, round trip, refusal without or with another wrapper, transplanted sealed fields"},
 	"C13": {Harnesses: []harnessSpec{
-		{Pkg: "rotation", Fn: "VerifC13RotateFaults", Validate: 16},
-		{Pkg: "registration", Fn: "VerifC13TokenFetchFaults", Validate: 8},
-	}, Assumptions: with("single fault per call; faults fail without applying"), Explanation: "fault injector with symbolic failing-operation index and error kind"},
+		{Pkg: "rotation", Fn: "VerifC13RotateFaults", Validate: 16, MustReach: []string{"fault-hit", "success", "error"}},
+		{Pkg: "rotation", Fn: "VerifC13NodeRotationFaults", Loop: 16, Validate: 8, MustReach: []string{"fault-hit", "rotated", "failed"}},
+		{Pkg: "registration", Fn: "VerifC13AuthorizeFaults", Validate: 8, MustReach: []string{"fault-hit", "authorized", "failed"}},
+		{Pkg: "registration", Fn: "VerifC13NodeLedFetchFaults", Validate: 8, MustReach: []string{"fault-hit", "issued", "not-issued"}},
+		{Pkg: "registration", Fn: "VerifC13WrappedFetchFaults", Validate: 8, MustReach: []string{"fault-hit", "issued", "not-issued"}},
+		{Pkg: "registration", Fn: "VerifC13TokenCreateFaults", Validate: 4, MustReach: []string{"fault-hit", "created", "failed"}},
+		{Pkg: "registration", Fn: "VerifC13TokenFetchFaults", Validate: 8, MustReach: []string{"fault-hit", "issued", "not-issued"}},
+		{Pkg: "registration", Fn: "VerifC13NodeSideFaults", Validate: 8, MustReach: []string{"fault-hit", "created", "creation-failed", "handled", "handling-failed"}},
+		{Pkg: "tls", Fn: "VerifC13GenerateFaults", Validate: 8, MustReach: []string{"fault-hit", "generated", "failed"}},
+	}, Assumptions: with("single fault per call; a failing operation fails without applying (faults that lie and crashes mid-call are outside the claim)", "the failing operation's index and error kind (generic, ErrNotFound, context.Canceled) are symbolic; each harness asserts that the call makes no more storage operations than the index range covers (the unwinding check of the fault position)"),
+		Explanation: "nine flows (root rotation with and without reinitialisation, node rotation, authorize, node-led fetch, wrapper fetch, token creation, token fetch, node-side create/handle, server-certificate generation) over a fault injector with symbolic failing-operation index and error kind"},
 	"C14": {Harnesses: []harnessSpec{
 		{Pkg: "protocol", Fn: "VerifC14ArbitraryAlpn", Validate: 8, MustReach: []string{"end"}, Panics: true},
 		{Pkg: "protocol", Fn: "VerifC14ArbitraryAlpnReal", Validate: 8, MustReach: []string{"end"}, Panics: true},
